@@ -759,6 +759,21 @@ func ruleRenderOptionsOnlyFlags(r *Run) {
 			switch x := in.(type) {
 			case *ssa.Store:
 				if f, base, ok := fieldNameOf(x.Addr); ok && typeKey(derefType(base.Type())) == "renderOptions" {
+					// a default assigned before the same function registers the field as a flag is overwritten by parsing
+					isDefault := false
+					for _, c := range callsIn(fn) {
+						if pk, _ := calleePkgName(c); !strings.HasSuffix(pk, "spf13/pflag") {
+							continue
+						}
+						for _, a := range c.Common().Args {
+							if f2, b2, ok := fieldNameOf(a); ok && f2 == f && typeKey(derefType(b2.Type())) == "renderOptions" && instrDominates(x, c) {
+								isDefault = true
+							}
+						}
+					}
+					if isDefault {
+						return
+					}
 					good = false
 					o.Fail(r.pos(x.Pos()), "%s assigns renderOptions.%s: the value of the flag the user gave is overridden", shortFuncName(fn), f)
 				}
@@ -1052,12 +1067,15 @@ func ruleLexerInputVerbatim(r *Run) {
 				src = mi.X
 			}
 			rc, ok := src.(*ssa.Call)
-			if !ok || func() bool { pk, nm := calleePkgName(rc); return pk != "strings" || nm != "NewReader" }() {
+			if !ok || func() bool {
+				pk, nm := calleePkgName(rc)
+				return !(pk == "strings" && nm == "NewReader") && !(pk == "bytes" && (nm == "NewReader" || nm == "NewBufferString" || nm == "NewBuffer"))
+			}() {
 				good = false
-				o.Fail(r.pos(c.Pos()), "the scanner reads from %s, not from strings.NewReader(query)", describe(src, 0))
+				o.Fail(r.pos(c.Pos()), "the scanner reads from %s, not from a reader over the query text", describe(src, 0))
 				continue
 			}
-			text := rc.Call.Args[0]
+			text := stripConv(rc.Call.Args[0])
 			if originValueIn(unspill(text), grp) != ssa.Value(tk.Params[0]) && unspill(text) != ssa.Value(tk.Params[0]) {
 				good = false
 				o.Fail(r.pos(rc.Pos()), "the scanner is given %s, not the query text Tokenize received", describe(text, 0))
@@ -1079,7 +1097,7 @@ func ruleLexerInputVerbatim(r *Run) {
 // query that used it).
 func ruleParserStateOnlyPosition(r *Run) {
 	p := r.P
-	o := r.Ob("PV-FRESH", "logql.parser state", "parse methods write no field of the parser except its token position: nothing a parse function returns can alias storage that a later parse call reuses")
+	o := r.Ob("PV-FRESH", "logql.parser state", "parse methods store no slice, map or pointer into the parser (its state is the token position): nothing a parse function returns can alias storage that a later parse call reuses")
 	parserT := p.NamedType(logqlPkg, "parser")
 	if parserT == nil {
 		o.Fail("-", "type parser not found")
@@ -1110,8 +1128,8 @@ func ruleParserStateOnlyPosition(r *Run) {
 				return
 			}
 			nStores++
-			if bt, ok := st.Val.Type().Underlying().(*types.Basic); ok && bt.Info()&types.IsInteger != 0 {
-				return
+			if aliasFreeType(st.Val.Type(), 0) {
+				return // a position, a flag, a token (strings and numbers): nothing a later call could overwrite in place
 			}
 			good = false
 			o.Fail(r.pos(st.Pos()), "%s stores %s into parser.%s: state kept between parse calls", shortFuncName(fn), describe(st.Val, 0), f)
@@ -1122,7 +1140,7 @@ func ruleParserStateOnlyPosition(r *Run) {
 		return
 	}
 	if good {
-		o.OK("%d parser methods/closures, %d store(s) to parser fields, all of the integer position", n, nStores)
+		o.OK("%d parser methods/closures, %d store(s) to parser fields, none of a slice, map or pointer", n, nStores)
 	}
 }
 
@@ -1330,4 +1348,26 @@ func ruleSinceZeroIsAValue(r *Run) {
 	if good {
 		o.OK("the parsed duration is used as it is").At(r.pos(fn.Pos()))
 	}
+}
+
+// aliasFreeType: values of the type share no storage with their copies (numbers, strings,
+// booleans, and structs/arrays of those).
+func aliasFreeType(t types.Type, d int) bool {
+	if d > 4 {
+		return false
+	}
+	switch u := t.Underlying().(type) {
+	case *types.Basic:
+		return u.Kind() != types.UnsafePointer
+	case *types.Struct:
+		for i := 0; i < u.NumFields(); i++ {
+			if !aliasFreeType(u.Field(i).Type(), d+1) {
+				return false
+			}
+		}
+		return true
+	case *types.Array:
+		return aliasFreeType(u.Elem(), d+1)
+	}
+	return false
 }
